@@ -343,6 +343,13 @@ def r5(run, db):
         idc = [c for c in f.calls() if c.callee == idr.id]
         stp = [c for c in f.calls() if c.matches(r"ActorCell::stop$")]
         run.check(len(idc) >= 1 and len(stp) >= 1 and all(any(true_edge(f, i) and f.edge_dominates(true_edge(f, i), s.site) for i in idc) for s in stp), "handle|stop-if-drained", "the factory stops itself only on the true edge of is_drained()", "factory stop not guarded by is_drained()", f.where())
+        # ... and the test is made after *every* message: the last outstanding job can also end without a Finished (its
+        # worker fails and is replaced, a queued job expires on a timer tick), so any message can be the one after which the
+        # factory is drained
+        oks = [site for site, st_ in f.aggregates(adt="std::result::Result", variant="Ok") if st_["lhs"][0] == 0 and not st_["lhs"][1]]
+        good = bool(idc) and bool(oks) and f.must_pass(f.entry(), [i.site for i in idc], to_sites=oks)
+        run.check(good, "handle|drained-tested-after-every-message", "every normal path through the factory's handle() evaluates is_drained()",
+                  "is_drained() is evaluated only for some messages: when the last outstanding job ends without such a message (worker failure, TTL expiry) the factory stays Draining forever -- it refuses all jobs, never stops, on_factory_stopped never runs", f.where())
 
 
 def _fnames(fn, op):
@@ -433,6 +440,20 @@ def r6(run, db):
         run.check(okm, "resize|capped", "new size = min(GLOBAL_WORKER_POOL_MAXIMUM, requested)", "new size is not capped by the global maximum", f.where())
         ps = [(site, st) for site, st in f.stmts() if st["k"] == "assign" and fields(db).fs_pool_size in [proj_field_name(e) for e in st["lhs"][1] if e.startswith("f:")]]
         run.check(len(ps) == 1 and all(f.reaches_after(c.site, ps[0][0]) for c in g + s), "resize|size-after-change", "pool_size is updated after the pool changed", None, f.where())
+    # growth over a wid whose worker was only *marked* as retiring (it was busy when the pool shrank): the mark is cleared
+    # whether or not the worker is idle right now -- otherwise it retires itself after its current job although the pool
+    # was grown back, and the live set stays below the requested size
+    gp = [f for f in db.crate_fns("ractor") if re.search(r"FactoryState::<.*>::grow_pool::\{closure#0\}$", f.id)]
+    run.anchor("grow_pool", len(gp), 1)
+    for f in gp:
+        run.saw(len(f.blocks), f)
+        sd = [c for c in f.calls() if c.callee and c.callee.endswith("::set_draining") and f.value_consts(c.args[1]) == ["false"]]
+        av = [c for c in f.calls() if c.callee and c.callee.endswith("::is_available")]
+        run.anchor("grow_pool set_draining(false)", len(sd), 1, f.where())
+        for c in sd:
+            cond = [x for x in av if any(e and f.edge_dominates(e, c.site) for e in (true_edge(f, x), false_edge(f, x)))]
+            run.check(not cond, "grow|revive-unconditional", "an existing (retiring) worker inside the new size is un-retired whether or not it is idle",
+                      "grow_pool clears the retiring mark only when the worker is idle: a busy retiring worker keeps the mark, stops itself after its job, and the pool ends below the requested size for good", c.where())
 
 
 Q = ["dflt"]
